@@ -61,13 +61,23 @@ fn matrix_contract_small() {
     }
 }
 
-/// region F-C17-counters-1: ConfigBuilder::new(1, ..) is accepted, next_power_2(1) == 1, rows have
-/// length 0 and the first increment / estimate indexes out of bounds on a background thread.
+/// every counter count the builder accepts gives a usable sketch: new(c) followed by increment / estimate
+/// never panics, for the smallest sizes (bounded: c <= 3; the Verus unit covers every size).
+/// `seeds()` uses the thread-local RNG, which Kani cannot run: stubbed to arbitrary seeds.
+fn any_seeds() -> [u64; ROWS] { kani::any() }
 #[kani::proof]
-fn counters_one_region_cover() {
-    let c: u64 = 1;
-    let total = FrequencyCounter::next_power_2(c);
-    kani::cover!(total / 2 == 0, "F-C17-counters-1: counters = 1 gives rows of length 0");
+#[kani::unwind(7)]
+#[kani::stub(FrequencyCounter::seeds, any_seeds)]
+fn smallest_counters_are_usable() {
+    let c: u64 = kani::any();
+    kani::assume(c >= 1 && c <= 3);
+    let mut f = FrequencyCounter::new(c);
+    let h: u64 = kani::any();
+    f.increment(h);
+    assert!(f.estimate(h) == 1);
+    f.reset();
+    assert!(f.estimate(h) == 0);
+    kani::cover!(c == 1, "counters = 1");
 }
 
 /// a well-formed sketch with total_counters = 2 (one byte per row): arbitrary counters and seeds
